@@ -116,6 +116,55 @@ theorem C08_finding_await_weight_not_visited : ¬ C08_await_same_moment_full := 
             (.before .CONFIGURE) posW _ (List.mem_singleton.mpr rfl) rfl rfl rfl (by decide) (by decide) (by decide) (by decide)
   revert this; decide
 
+/-- "…or cancelled at teardown if its await point is never reached": a teardown that goes through
+    (result ok, or only the leftover error of its leave hooks) leaves NO result waiting to be collected —
+    every call still registered under an await expression has been cancelled. The model's prediction for
+    the harness's end-of-case record `Q` after a teardown is therefore 0, for all hooks and histories. -/
+theorem C08_teardown_cancels_pending (env : Env) (hooks : List Hook) (f r1 r2 : Bool) (n : Nat)
+    (h : (teardown env hooks f r1 r2 n).2.2.moved = true) : uncollected (teardown env hooks f r1 r2 n).1 = [] :=
+  teardown_uncollected env hooks f r1 r2 n h
+
+/-- "…each started call is collected exactly once": a result that is waiting to be collected is always
+    one the environment still lists under its await expression (so the harness's `Q` never exceeds what
+    the request records list as pending), and once its await point has been handled it is listed there no
+    more (`C08_await_barrier`), so it cannot be collected a second time. -/
+theorem C08_uncollected_are_pending (env : Env) : ∀ i ∈ uncollected env, i ∈ allPending env := by
+  intro i hi; exact (List.mem_filter.mp hi).1
+
+/-- All calls pending at one await point are collected TOGETHER, whatever their results: one await step
+    holds every one of them — the failing critical one, the ones registered after it, the ones that take
+    longer — and the count reported for the weight is taken over all of them. -/
+theorem C08_await_collects_all (env : Env) (hooks : List Hook) (m : Moment) (w : Int) (i : Inst)
+    (hi : i ∈ pendingAt env m w) :
+    ∃ is, Step.await m w is ∈ (handleWeight env hooks m w).2.1 ∧ i ∈ is ∧ pendingAt (handleWeight env hooks m w).1 m w = [] := by
+  have h1 : i ∈ pendingAt (phase1 env hooks m w).1 m w := by
+    rw [pendingAt_eq_getAt]
+    unfold phase1; simp only
+    apply getAt_registerAwaits_mono
+    rw [instantiate_pending]; exact hi
+  refine ⟨pendingAt (phase1 env hooks m w).1 m w, ?_, h1, handleWeight_barrier env hooks m w⟩
+  unfold handleWeight
+  simp only
+  have hp2 : (phase2 (phase1 env hooks m w).1 m w).2 = pendingAt (phase1 env hooks m w).1 m w := rfl
+  rw [hp2]
+  have hne : (pendingAt (phase1 env hooks m w).1 m w).isEmpty = false := by
+    cases hg : pendingAt (phase1 env hooks m w).1 m w with
+    | nil => rw [hg] at h1; cases h1
+    | cons _ _ => rfl
+  simp [hne]
+
+/-- Non-vacuity: a critical call that fails and a second call registered after it at the same await
+    point are collected in one step; a call that awaits a moment which never comes is cancelled by the
+    teardown (nothing is left over). -/
+example :
+    let hooks : List Hook := [
+      { id := 0, isTask := false, critical := true, trig := .enter .DEPLOYED, tw := 0, await := .enter .DEPLOYED, aw := 0, outcomes := [true] },
+      { id := 1, isTask := false, critical := false, trig := .enter .DEPLOYED, tw := 0, await := .enter .DEPLOYED, aw := 0, outcomes := [] },
+      { id := 2, isTask := false, critical := false, trig := .before .DEPLOY, tw := 0, await := .never 0, aw := 0, outcomes := [] }]
+    let rs := runSeq hooks 0 {} [.try_ .DEPLOY true false, .teardown true true true]
+    (rs.map fun r => (uncollected r.2.2).length) = [1, 0] ∧
+    (rs.map fun r => r.1.filterMap fun | .await _ _ is => some (is.map (·.hook)) | _ => none) = [[[0, 1]], []] := by decide
+
 /-- Non-vacuity of the ordering theorems: a pass over three weights with a tie. -/
 example :
     let hooks : List Hook := [
